@@ -183,6 +183,48 @@ fn check_history(c: &Cfg, faults: &[(u64, FaultKind)], p: &mut Partial, tag: &st
             viol("non-event-statistic-sometimes-missing", format!("{name}: present {pres}, absent {abs}"), p);
         }
     }
+    // a statistic that has an option: present on every draw (every draw of its event) when the
+    // option is on, on none when it is off
+    {
+        let n = res.draws.len();
+        let on = |bit: u8| c.flags & bit != 0;
+        let table: [(&str, bool); 4] = [
+            ("gradient", on(1)),
+            ("unconstrained_draw", on(2)),
+            ("transformed_position", on(4)),
+            ("transformed_gradient", on(4)),
+        ];
+        for (name, opt) in table {
+            if let Some((pres, _abs)) = presence.get(name) {
+                p.count("option_presence_rules_checked", 1);
+                let want = if opt { n } else { 0 };
+                if *pres != want {
+                    viol("statistic-presence-does-not-follow-its-option", format!("{name}: option {} but present on {pres} of {n} draws", if opt { "on" } else { "off" }), p);
+                }
+            }
+        }
+        let n_updates = presence.get("transformation_update_id").map(|x| x.0).unwrap_or(0);
+        for (name, opt, with_every_event) in [
+            ("divergence_start", on(8), false),
+            ("divergence_start_gradient", on(8), false),
+            ("divergence_end", on(8), false),
+            ("divergence_momentum", on(8), false),
+            ("mass_matrix_inv", c.store_mass_matrix, true),
+            ("transformation_mu", c.store_mass_matrix, true),
+            ("mass_matrix_stds", c.store_mass_matrix, true),
+            ("mass_matrix_eigvals", c.store_mass_matrix, false),
+        ] {
+            if let Some((pres, _abs)) = presence.get(name) {
+                p.count("option_presence_rules_checked", 1);
+                if !opt && *pres > 0 {
+                    viol("statistic-presence-does-not-follow-its-option", format!("{name}: option off but present on {pres} draws"), p);
+                }
+                if opt && with_every_event && *pres != n_updates {
+                    viol("statistic-presence-does-not-follow-its-option", format!("{name}: option on, present on {pres} draws but {n_updates} draws report a transformation update"), p);
+                }
+            }
+        }
+    }
     // transformation-update events <=> the transformation changed
     if types.contains_key("transformation_update_id") {
         for d in 0..res.draws.len() {
